@@ -93,6 +93,7 @@ type Exec struct {
 	floatOps  [][2]*Term
 	mapTypes  map[string]*types.Map
 	funcVals  map[string]Value
+	funcAssumed map[string]bool
 	scanState *State
 	funcRefs  map[Value]*Term
 	refComps  map[string]bool
